@@ -206,6 +206,10 @@ def pack_cell(t, v, rng):
 
 def flow_short(t, sj, v, rng):
     """a FlowRowModel value written with the flow sheet's short headers"""
+    # the meaning of the short headers comes from the specification side (the Lean schema, tied to the
+    # source by Props.C07.tables_agree_*), NOT from the tree under test: an edited remap table must
+    # not be followed by the layout generator
+    sj = FLOW.get("spec") or sj
     basic = dict(sj["basic"])
     inv = {}
     for h, f in basic.items():
@@ -268,6 +272,8 @@ def flow_short(t, sj, v, rng):
 
 
 def top_field(sj, t, header):
+    if sj.get("main") and FLOW.get("spec"):
+        sj = FLOW["spec"]
     h = dict(sj.get("basic") or []).get(header, header)
     main = sj.get("main")
     if main and header == main[0]:
@@ -562,6 +568,11 @@ def run(ck: core.Check):
         raise core.Infra("driver not built:\n" + ck.lean.log[-2000:])
     quick = ck.tier == "quick"
     c07.setup_schemas(ck.rng, 30 if quick else 120)
+    FLOW["spec"] = core.Driver().results([{"op": "row.flowschema"}])[0]
+    ck.evaluations += 1
+    if FLOW["spec"] != FLOW["sj"]:
+        ck.tie_break("Rpft.Row.flowRowSchema (specification of the short headers) differs from flowrowmodel.py in the working tree",
+                     {"lean_basic": FLOW["spec"].get("basic"), "source_basic": FLOW["sj"].get("basic")})
     corpus(ck)
     cases = gen_cases(ck, per_schema=200 if quick else 1200, flow_n=5000 if quick else 40000, n_random=6, n_perm=4 if quick else 12)
     fold(ck, par.pmap(worker, core.shard(cases, par.NPROC * 2)))
